@@ -78,7 +78,12 @@ class Pseudo2NetCDF:
         for k in [k for k in pfile.ncattrs()
                   if (k not in self.ignore_global_properties and
                       self.ignore_global_re.match(k) is None)]:
-            value = getattr(pfile, k)
+            # getncattr: a netCDF4 source shadows attributes named like its
+            # own python attributes (scale, mask, name, ...)
+            if hasattr(pfile, 'getncattr'):
+                value = pfile.getncattr(k)
+            else:
+                value = getattr(pfile, k)
             if not isinstance(value, MethodType):
                 try:
                     # setattr would treat names that netCDF4 reserves for
@@ -97,7 +102,10 @@ class Pseudo2NetCDF:
                   if ((k not in self.ignore_variable_properties and
                        self.ignore_variable_re.match(k) is None) or
                       k in self.special_properties)]:
-            value = getattr(pvar, a)
+            if hasattr(pvar, 'getncattr'):
+                value = pvar.getncattr(a)
+            else:
+                value = getattr(pvar, a)
             if isinstance(nvar, NetCDFVariable) and a == '_FillValue':
                 continue
             if not isinstance(value, MethodType):
